@@ -14,7 +14,8 @@ PROPS = {
              "(ii) random: graphs from vf::gen_graph up to n=300 (path, 2-D/3-D grids, ER, tree+chords, band, star, disconnected union, diagonal) with M-matrix, convection-diffusion, diagonally dominant "
              "mixed-sign / all-positive / zero-row-sum value families (real and integer valued), optional structural non-symmetry, eps_strong in (0,1), block_size 1..4 (A (x) I_b with and without stored "
              "zeros, A (x) dense block), min_aggregate 0..4, null-space dimension 0..4 with random B, relax, estimate_spectral_radius (Gershgorin and power iteration), Ruge-Stuben do_trunc / eps_trunc "
-             "in {0.2,0.25,0.5,0.75,random} on integer matrices so that v == eps_trunc*a_min occurs. "
+             "in {0.2,0.25,0.5,0.75,random} on integer matrices so that v == eps_trunc*a_min occurs; the public function tentative_prolongation() is also called directly on arbitrary partitions "
+             "(1..4 null-space vectors, block_size 1..2) including aggregates with fewer unknowns than null-space vectors (regression for the QR::R over-read); the *_mt registrations repeat the random props under 4 OpenMP threads. "
              "non-trivial: >=2 aggregates and at least one removed/isolated node, or null-space dimension >=2, or block_size >=2 (lifting: a coupling exists; Ruge-Stuben: a zero-row-sum row with a strong "
              "neighbour was asserted on a matrix with >=3 rows). distinct = distinct decoded choice sequences (64-bit hash), united over shards.",
         assumptions=["long double (64-bit mantissa) evaluation of the documented formulas is accurate to well below the stated rounding bounds",
